@@ -140,39 +140,10 @@ def CEILING(
         raise xlerrors.NumExcelError('significance below zero and number \
                                       above zero is not allowed')
 
-    number = float(number)
-    significance = float(significance)
-
-    ceiling = significance * math.ceil(number / significance)
-
-    # If number is an exact multiple of significance, no rounding occurs
-    if (number % significance) == 0:
-        return ceiling
-
-    quantize_multiplier = str(significance % 1)
-
-    # If number is negative, and significance is negative, the value is
-    # rounded down, away from zero.
-    if number < 0 and significance < 0:
-        result = decimal.Decimal(ceiling)
-        result = result.quantize(decimal.Decimal(quantize_multiplier),
-                                 rounding=decimal.ROUND_DOWN)
-        return float(result)
-
-    # If number is negative, and significance is positive, the value is
-    # rounded up towards zero.
-    if number < 0 < significance:
-        result = decimal.Decimal(ceiling)
-        result = result.quantize(decimal.Decimal(quantize_multiplier),
-                                 rounding=decimal.ROUND_UP)
-        return float(result)
-
-    # Regardless of the sign of number, a value is rounded up when adjusted
-    # away from zero.
-    result = decimal.Decimal(ceiling)
-    result = result.quantize(decimal.Decimal(quantize_multiplier),
-                             rounding=decimal.ROUND_UP)
-    return float(result)
+    # Work on the decimal representations: binary floating point (and a
+    # quantization to the digits of the significance) is wrong for
+    # significances like 0.1 or 0.25.
+    return _multiple(number, significance, decimal.ROUND_CEILING)
 
 
 @xl.register()
@@ -487,6 +458,23 @@ def _finite(value):
     if not np.isfinite(value):
         raise xlerrors.NumExcelError('result is too large')
     return value
+
+
+def _multiple(number, significance, rounding):
+    """significance * round(number / significance), computed exactly."""
+    number = decimal.Decimal(str(number))
+    significance = decimal.Decimal(str(significance))
+    with decimal.localcontext() as dc:
+        dc.prec = _DECIMAL_PRECISION
+        # divmod truncates toward zero and is exact.
+        quotient, remainder = divmod(number, significance)
+        if remainder != 0:
+            positive = (number < 0) == (significance < 0)
+            if rounding == decimal.ROUND_CEILING and positive:
+                quotient += 1
+            elif rounding == decimal.ROUND_FLOOR and not positive:
+                quotient -= 1
+        return float(quotient * significance)
 
 
 def _round(number, num_digits, _rounding=decimal.ROUND_HALF_UP):
